@@ -1318,7 +1318,13 @@ void f_bind (void) {
     error ("Permission of binding denied by master object.\n");
 
   new_fp = ALLOCATE (funptr_t, TAG_FUNP, "f_bind");
-  *new_fp = *old_fp;
+  /* the original is only as large as its own kind needs (make_*_funp):
+   * copying a whole funptr_t would read past its end */
+  new_fp->hdr = old_fp->hdr;
+  if ((old_fp->hdr.type & 0x0f) == FP_FUNCTIONAL)
+    new_fp->f.functional = old_fp->f.functional;
+  else
+    new_fp->f.local = old_fp->f.local;
   new_fp->hdr.ref = 1;		/* the copy is held by the stack only, whoever holds the original */
   new_fp->hdr.owner = ob;	/* one ref from being on stack */
   if (new_fp->hdr.args)
